@@ -127,7 +127,7 @@ template<> struct U<unsigned long long>{ static void get(std::vector<unsigned lo
 template<> struct U<unsigned long>{ static void get(std::vector<unsigned long> &o){ o.push_back(0); o.push_back(2);} };
 template<> struct U<double>{ static void get(std::vector<double> &o){ o.push_back(0.0); o.push_back(-0.0); o.push_back(1.0/3); o.push_back(1e308*10); o.push_back(5e-324);} };
 template<> struct U<std::string>{ static void get(std::vector<std::string> &o){ o=strs(); } };
-template<> struct U<json::value>{ static void get(std::vector<json::value> &o){ json::value v; v=json::null(); o.push_back(v); v=1.5; o.push_back(v); v="s\"\n"; o.push_back(v); json::value a; a[0]=1; a[1]["k"]="v"; o.push_back(a); json::value ob; ob["x"]=json::array(); ob["y"]=json::object(); ob["z"]=true; o.push_back(ob);} };
+template<> struct U<json::value>{ static void get(std::vector<json::value> &o){ json::value v; v=json::null(); o.push_back(v); v=1.5; o.push_back(v); v="s\"\n"; o.push_back(v); { std::string ctl; for(int c=1;c<0x20;c++) ctl+=(char)c; ctl+="\x7f/\\\""; v=ctl; o.push_back(v); /* every control byte, DEL, slash, backslash, quote in one string */ json::value kc; kc[std::string("k\x1f\x01")]="v\x1f"; o.push_back(kc); for(int c=0x1d;c<=0x20;c++){ json::value one; one=std::string(1,(char)c); o.push_back(one); } } json::value a; a[0]=1; a[1]["k"]="v"; o.push_back(a); json::value ob; ob["x"]=json::array(); ob["y"]=json::object(); ob["z"]=true; o.push_back(ob);} };
 template<class A,class B> struct U<std::pair<A,B> >{ static void get(std::vector<std::pair<A,B> > &o){ std::vector<A> a; std::vector<B> b; U<A>::get(a); U<B>::get(b); for(size_t i=0;i<a.size()&&i<3;i++) for(size_t j=0;j<b.size()&&j<3;j++) o.push_back(std::make_pair(a[i],b[j])); } };
 // containers: element counts 0,1,2 (all ordered pairs of the first 3 element values) + one of 3 elements
 template<class C,class V> void ucont(std::vector<C> &o){ std::vector<V> e; U<V>::get(e); size_t m=std::min<size_t>(e.size(),4); C c; o.push_back(c);
